@@ -8,7 +8,7 @@ def main():
     if not ok:
         print(out[-3000:]); return 1
     rc = 0
-    for crate, profiles in [("rs-core", ["dev", "release"]), ("rs-mqtt", ["dev"])]:
+    for crate, profiles in [("rs-core", ["dev", "release"]), ("rs-mqtt", ["dev"]), ("rs-codec", ["dev"])]:
         if not os.path.isdir(os.path.join(VERIF, "harness", crate)):
             continue
         for p in profiles:
